@@ -110,10 +110,10 @@ def check(ctx):
                     "description = prefix (enum/struct/none) + name with parameters (iff the type has an ident) + structure of its own TypeDef")
     else:
         ctx.bad("C13.4", "missing-anchor/ty_description", "", "ty_description not found")
-    NAME = "Some(Ok(description::type_name_with_type_params(P1,Transformer::types(P%d))))"
-    expect_fn(ctx, "C13.4", "policy/recurse", "type_description::return_type_name", "early{Option::is_some(Path::ident(P1.path))=>return %s}v1::None" % (NAME % 2),
+    NAME = "description::type_name_with_type_params(P1,Transformer::types(P%d))"
+    expect_fn(ctx, "C13.4", "policy/recurse", "type_description::return_type_name", "then(Option::is_some(Path::ident(P1.path)),Ok(%s))" % (NAME % 2),
               "met again while in progress: name iff the type has an ident, else continue", D)
-    expect_fn(ctx, "C13.4", "policy/cache-hit", "type_description::return_type_name_on_cache_hit", "early{Option::is_some(Path::ident(P1.path))=>return %s}Some(Ok(P2))" % (NAME % 3),
+    expect_fn(ctx, "C13.4", "policy/cache-hit", "type_description::return_type_name_on_cache_hit", "Some(Ok(if(Option::is_some(Path::ident(P1.path))){%s}else{P2}))" % (NAME % 3),
               "already described: name iff the type has an ident, else the cached text", D)
     expect_fn(ctx, "C13.6", "format-flag", "description::type_description",
               "Ok(if(P2){formatting::format_type_description(%s)}else{%s})" % (("Transformer::resolve(Transformer::new(description::ty_description,type_description::return_type_name,type_description::return_type_name_on_cache_hit,(),P1),P0)?",) * 2),
